@@ -160,8 +160,17 @@ def body_extract(n_members, max_segs):
                         info.mode = 0o755
                         tar.addfile(info)
                     members.append((kind, name.replace(root, '<root>'), link.replace(root, '<root>')))
-            before = snapshot(root)
             loc = types.SimpleNamespace(path=ctx.choice('workdir_spelling', [wd, wd + '/']))
+            earlier = ctx.choice('earlier_staging_of_the_same_component', ['none', 'link'])
+            if earlier == 'link':
+                # an earlier `link` reference of the same component: <wd>/a -> <root>/abs/a (a directory outside), staged by the real code
+                os.makedirs(os.path.join(root, 'abs', 'a'))
+                lref = types.SimpleNamespace(method='link', resolve=lambda g: os.path.join(root, 'abs', 'a'),
+                                             stringRepresentation='/somewhere/a:link')
+                data.StageReference(lref, loc, None)
+                ctx.check(os.path.islink(os.path.join(wd, 'a')), 'harness: the earlier link reference was staged', None)
+                ctx.witness('extraction_after_link_staging')
+            before = snapshot(root)
             ref = types.SimpleNamespace(method='extract', resolve=lambda g: archive, stringRepresentation='stage0.p/a.tar:extract')
             try:
                 data.StageReference(ref, loc, None)
@@ -177,7 +186,7 @@ def body_extract(n_members, max_segs):
             removed = sorted(p for p in before if p not in after)
             outside = [p.replace(root, '<root>') for p in changed + removed
                        if not (p == wd or p.startswith(wd + os.sep))]
-            detail = {'members': members, 'workdir': loc.path.replace(root, '<root>'), 'rejected': rejected,
+            detail = {'members': members, 'earlier_staging': earlier, 'workdir': loc.path.replace(root, '<root>'), 'rejected': rejected,
                       'changed': [p.replace(root, '<root>') for p in changed][:8]}
             ctx.check(not outside, 'every extracted member lands inside the working directory', (outside, detail))
             if rejected:
@@ -286,11 +295,19 @@ def body_manifest(max_segs):
                 key = os.path.join(root, 'abs') + key
             method = ctx.choice('method', ['copy', 'link', None, 'junk'])
             manifest = {key: '../src/data' + ((':' + method) if method else '')}
-            second = ctx.choice('second_entry', ['none', 'bin', 'nested-under-first'])
+            second = ctx.choice('second_entry', ['none', 'bin', 'nested-under-first', 'same-folder-dot-slash', 'same-folder-trailing-dot',
+                                                 'same-folder-trailing-slash'])
             if second == 'bin':
                 manifest['bin'] = '../src/bin:copy'
             elif second == 'nested-under-first':
                 manifest[key.rstrip('/') + '/sub'] = '../src/bin:copy'
+            elif second.startswith('same-folder'):
+                # the folder the first entry populated (possibly a link out of the instance), spelled differently
+                other = {'same-folder-dot-slash': './' + key.lstrip('/') if not key.startswith('/') else key + '/.',
+                         'same-folder-trailing-dot': key.rstrip('/') + '/.',
+                         'same-folder-trailing-slash': key.rstrip('/') + '/'}[second]
+                ctx.assume(other != key)
+                manifest[other] = '../src/bin:copy'
             validated = ctx.flag('manifest_validated_before_deployment')
             detail = {'manifest': {k.replace(root, '<root>'): v for k, v in manifest.items()}, 'validated': validated}
             try:
@@ -368,7 +385,7 @@ def main(tier, seed, only=None):
                        'the solver only enumerates the structure choices: each path is one concrete archive/manifest']
     rep.explanation = ('bounded symbolic execution (symx/z3) over the segment structure of member names, link targets and manifest keys; the real '
                        'guard code runs natively on every path; writes recorded by a file-system model')
-    rep.required_witnesses = ['offending_archive_rejected', 'benign_archive_accepted', 'copy_or_link_staged', 'manifest_deployed']
+    rep.required_witnesses = ['offending_archive_rejected', 'benign_archive_accepted', 'copy_or_link_staged', 'manifest_deployed', 'extraction_after_link_staging']
     params = [{'kind': 'extract', 'members': 1, 'segs': 2 if quick else 3, 'name': 'extract-1'},
               {'kind': 'copylink', 'name': 'copylink'},
               {'kind': 'manifest', 'segs': 3 if quick else 4, 'name': 'manifest'}]
